@@ -130,6 +130,7 @@ pub fn sweep_cases(base: u64, index: u64, st: &mut GenStats) -> (Val, Vec<Case>)
                         access_fault: None,
                         honour_fields,
                         human_readable,
+                        typed_requests: !human_readable,
                     };
                     let es = deleg::derive_stream(&c0);
                     let ncalls = match deleg::run_twofloat(&es, &Delivery { fault: None, ..c0.delivery() }) {
@@ -272,6 +273,7 @@ fn lattice_cases(e: u64, r: &mut Rng, out: &mut Vec<Case>, thin: bool) {
                             access_fault: None,
                             honour_fields: false,
                             human_readable: true,
+                            typed_requests: false,
                         }));
                     }
                 }
